@@ -289,6 +289,21 @@ func (d *rawDriver) pessLock(start, forUpdateTS uint64, primary string, keys []s
 	})
 }
 
+func (d *rawDriver) pessRollback(start, forUpdateTS uint64, keys []string) error {
+	return d.keyed(keys, func(ks [][]byte) *tikvrpc.Request {
+		return tikvrpc.NewRequest(tikvrpc.CmdPessimisticRollback, &kvrpcpb.PessimisticRollbackRequest{StartVersion: start, ForUpdateTs: forUpdateTS, Keys: ks})
+	}, func(resp *tikvrpc.Response) error {
+		pr, ok := resp.Resp.(*kvrpcpb.PessimisticRollbackResponse)
+		if !ok || pr == nil {
+			return fmt.Errorf("pessimistic rollback: response %T", resp.Resp)
+		}
+		if len(pr.Errors) > 0 {
+			return fmt.Errorf("pessimistic rollback %d: %v", start, pr.Errors[0])
+		}
+		return nil
+	})
+}
+
 // ---------------------------------------------------------------------------------------------------------
 // layouts
 
